@@ -57,7 +57,7 @@ ACCT = st.one_of(_ACCT_PLAIN, _ACCT_PLAIN, _ACCT_PLAIN, st.sampled_from(["3782 8
 
 
 def url_st():
-    return st.builds(lambda h, p: f"https://{h}.example.com/{p}", st.text("abcdefghijklmnopqrstuvwxyz", min_size=1, max_size=6), st.one_of(st.sampled_from(["ofx", "cgi/ofx?x=1&y=2", "a%20b", "q?u=%2F", "100%"]), st.text(URLCH, min_size=0, max_size=10)))
+    return st.builds(lambda h, p: f"https://{h}.example.com/{p}", st.text("abcdefghijklmnopqrstuvwxyz", min_size=1, max_size=6), st.one_of(st.sampled_from(["ofx", "cgi/ofx?x=1&y=2", "a%20b", "q?u=%2F", "100%", "ofx?app=ofx&region=us&copy=1", "q?a=1&lt=2&amp=3&timestamp=4", "o?x=&#38;y"]), st.text(URLCH, min_size=0, max_size=10)))
 
 
 def value_st(opt):
@@ -221,7 +221,7 @@ class ConfigMachine(RuleBasedStateMachine):
         cli=st.dictionaries(st.sampled_from(PERSISTABLE), st.integers(0, 10**6), max_size=6),
         user=st.dictionaries(st.sampled_from(PERSISTABLE), st.tuples(st.integers(0, 10**6), st.integers(0, 20)), max_size=6),
         oh=st.dictionaries(st.sampled_from(["101", "202", "303"]), st.lists(st.sampled_from(OFXHOME_OPTS), max_size=4), max_size=3),
-        mode=st.sampled_from(["merge", "merge", "write", "write", "dry-write", "acctinfo-write", "prof-dry-write", "acctinfo-dry-write"]), data=st.data(),
+        mode=st.sampled_from(["merge", "merge", "write", "write", "dry-write", "acctinfo-write", "prof-dry-write", "acctinfo-dry-write", "prof-write"]), data=st.data(),
     )
     def run(self, nick_i, fresh, cli, user, oh, mode, data):
         nicks = fidb_nicks()
@@ -270,7 +270,7 @@ class ConfigMachine(RuleBasedStateMachine):
             p.parent.mkdir(parents=True, exist_ok=True)
             with open(p, "w") as f:
                 cp.write(f)
-        sub = {"acctinfo-write": "acctinfo", "acctinfo-dry-write": "acctinfo", "prof-dry-write": "prof"}.get(mode, "stmt")
+        sub = {"acctinfo-write": "acctinfo", "acctinfo-dry-write": "acctinfo", "prof-dry-write": "prof", "prof-write": "prof"}.get(mode, "stmt")
         argv = [sub, nick]
         if sub != "stmt":
             # the acctinfo / prof sub-commands have no statement options; acctinfo needs a user name
@@ -289,13 +289,18 @@ class ConfigMachine(RuleBasedStateMachine):
                     argv += [CLI_FLAG[o], a]
             else:
                 argv += [CLI_FLAG.get(o, "--" + o), str(v)]
-        if mode in ("write", "acctinfo-write"):
+        if mode == "prof-write":
+            # the profile request signs on anonymously, but --write stores the settings of the run like any other sub-command
+            argv += ["--write"]
+            self.flags.add("prof --write")
+            mode = "write"
+        elif mode in ("write", "acctinfo-write"):
             argv += ["--write", "--password", PASSWORD]
         elif mode == "dry-write":
             argv += ["--write", "--dryrun"]
         ofxget = G.load(self.root)
         exp, disagree = self.expected(ofxget, nick, cli_vals)
-        if mode == "write":
+        if mode == "write" and sub == "stmt":
             # implicit preconditions of a real statement request: bank accounts need a bank id, investment accounts a broker id
             changed = False
             if any(exp[o] not in NULLS for o in ("checking", "savings", "moneymrkt", "creditline")) and exp["bankid"] in NULLS:
